@@ -41,11 +41,19 @@ def run_harness(hexe, seed, n, scenario, out):
     return rc, log
 
 
-def main(prop, prop_v, tier, seed, replay, scenarios, own_prefixes, known_prefixes=(), extra_cov=None):
+def main(prop, prop_v, tier, seed, replay, scenarios, own_prefixes, known_prefixes=(), extra_cov=None, regen=False):
     """scenarios: list of scenario kinds (None = the default rotation).
     own_prefixes: monitor failure prefixes that are violations of this property."""
     res = L.Result(prop, tier, seed)
+    gen_ok, gen_log = (True, "")
+    if regen:
+        gen_ok, gen_log = L.regenerate()
     ok, cov = L.proof_stage(res, prop, prop_v, thorough=(tier == "thorough"))
+    if regen:
+        cov["generated_from_source"] = {"files": list(L.GENERATED), "ok": gen_ok, "log": gen_log[-500:]}
+        if not gen_ok:
+            p = L.write_replay(prop, "translation.txt", "the Go source could not be translated (tie by translation broken):\n" + gen_log)
+            res.violation(p, "translation of the Go source failed", no_input=True)
     hexe, hlog = L.build_harness("seq")
     if hexe is None:
         p = L.write_replay(prop, "harness_build.txt", "the correspondence harness no longer compiles against /repo's working tree\n" + hlog[-6000:])
